@@ -19,7 +19,7 @@ YesNo == <<"no", "yes">>
 Comment == <<"line", "block", "none", "empty", "trailing">>
 Dom == [
   \* declarations of acme/weather/v1/weather.proto
-  msg_name |-> <<"Forecast", "forecast_bad", "forecastBad">>,
+  msg_name |-> <<"Forecast", "forecast_bad", "forecastBad", "Forecast2day">>,
   nested_msg_name |-> <<"Detail", "detail_bad">>,
   field_name |-> <<"city_name", "CityName", "cityName">>,
   nested_field_name |-> <<"note", "NoteBad">>,
@@ -75,7 +75,8 @@ OptionSlots == {"opt_service_suffix", "opt_zero_suffix"}
 \* ------------------------------------------------------------------ expected annotations
 A(rule, at) == [rule |-> rule, at |-> at]
 BadComment(v) == v \in {"none", "empty", "trailing"}
-PascalOK(n) == n \in {"Forecast", "Detail", "Kind", "Level", "WeatherService", "WeatherAPI", "Weather", "GetForecast", "Last"}
+\* (a digit inside a name does not start a new word: Forecast2day is PascalCase)
+PascalOK(n) == n \in {"Forecast", "Detail", "Kind", "Level", "WeatherService", "WeatherAPI", "Weather", "GetForecast", "Last", "Forecast2day"}
 SnakeOK(n) == n \in {"city_name", "note", "choice", "ext_name", "inner_ext"}
 ServiceSuffix(w) == IF w.opt_service_suffix = "default" THEN "Service" ELSE "API"
 ServiceSuffixed(n, suf) == <<n, suf>> \in {<<"WeatherService", "Service">>, <<"WeatherAPI", "API">>}
